@@ -383,6 +383,14 @@ def em7(model):
             ok = any(isinstance(d, ast.Compare) and isinstance(d.left, ast.Call) and getattr(d.left.func, 'id', '') == 'type'
                      and unparse(d.comparators[0]).endswith('ParagraphToken') and isinstance(d.ops[0], (ast.Is, ast.Eq))
                      for d in disj)
+            if not ok:
+                # any other spelling that is certainly true for a ParagraphToken (isinstance, membership in a tuple)
+                from .r6 import _tri_tok
+                toks = {unparse(x.left.args[0]) for x in ast.walk(n.test) if isinstance(x, ast.Compare)
+                        and isinstance(x.left, ast.Call) and getattr(x.left.func, 'id', '') == 'type' and x.left.args}
+                toks |= {unparse(x.args[0]) for x in ast.walk(n.test) if isinstance(x, ast.Call)
+                         and getattr(x.func, 'id', '') == 'isinstance' and len(x.args) == 2}
+                ok = any(_tri_tok(n.test, tn, 'ParagraphToken') is True for tn in toks)
             if ok:
                 r.ok(n, 'a ParagraphToken always ends the maths with an error mark', nontrivial=True)
             else:
